@@ -47,7 +47,20 @@ def battery(seed, tier, n):
         names = rng.sample(NAMES, rng.randint(3, 8))
         cfg = G.Cfg(varnames=names, p_var=0.8, max_n=4)
         r = rng.random()
-        if r < 0.5:
+        if r < 0.2:
+            # repeated (structurally equal) terms / factors with inexact coefficients: any dedup-by-set or
+            # group-by-hash shows up as a different summation order
+            a, b, c = (("Variable", v) for v in names[:3])
+            coef = lambda: ("Constant", rng.choice([0.05, 0.2, 0.3, 0.1, 0.7, 1 / 3, 0.15, 2.5e-3]))
+            pool = [("Multiply", coef(), a, b), ("Multiply", coef(), a), ("Multiply", coef(), b, c), ("Multiply", coef(), a, c, b),
+                    ("Sine", ("Multiply", a, b)), ("NthPower", ("Add", a, coef()), 2), ("Exponential", ("Multiply", coef(), a), None)]
+            k = rng.choice(["Add", "Add", "Multiply"])
+            terms = [rng.choice(pool) for _ in range(rng.randint(4, 7))]
+            terms[rng.randrange(len(terms))] = terms[0]
+            t = (k,) + tuple(terms)
+            if rng.random() < 0.4:
+                t = G.embed(rng, t, cfg)
+        elif r < 0.5:
             t = G.friendly_tree(rng, G.rand_size(rng, 6, 26), cfg, p=0.8)
         elif r < 0.7:
             t = G.rule_case(rng, cfg)
@@ -60,7 +73,7 @@ def battery(seed, tier, n):
         vs = sorted(S.variables(t))
         if len(vs) < 2 or not C.varfree_in_scope(t):
             continue
-        pts = [{v: rng.choice([0.5, 1.5, 2.0, 0.25, 3.0, 1.25, 0.1, 1 / 3, 2, -1.5, -0.5]) for v in vs} for _ in range(2)]
+        pts = [{v: rng.choice([0.5, 1.5, 2.0, 0.25, 3.0, 1.25, 0.1, 1 / 3, 2, -1.5, -0.5, 1, 1.0, 0.7]) for v in vs} for _ in range(2)]
         if any(R.NORMAL.evaluate(t, p).oos for p in pts):
             continue
         cases.append({"spec": S.to_json(t), "points": [S.point_to_json(p) for p in pts], "vars": rng.sample(vs, min(2, len(vs)))})
